@@ -24,7 +24,7 @@ oq = bind_repo()
 LEVEL = "exploration"
 
 EPS = 1e-8
-C_TOL = 40.0
+C_TOL = 100.0                     # measured: dev <= 4.2 eps (eps=1e-8), <= 11.7 eps (eps=1e-5) over the thorough product
 ALPHABET = (-2, 0, 1, 3)
 # symmetric spectra (o_i + o_j = 0 = 2 o_k coincidences, the only kind the repository's tests use) are not reachable
 # with the alphabet above and are added explicitly
